@@ -592,6 +592,27 @@ func c14DrawCase(rt *rapid.T) *c14Case {
 			}
 		}
 	}
+	// Host scenario (cli): one of the hand-written changes that come with a
+	// file of their own, and several differently planted variants of that
+	// file (what one of them leaves behind in the compiled change, or in the
+	// process, meets the next).
+	if cs.Kind == "cli" && !moduleScenario && len(changes) > 0 && changes[0].Label != "special:package-guard" && rapid.IntRange(0, 2).Draw(rt, "hostScenario") == 0 {
+		var withHost []*c14Special
+		for i := range c14Specials {
+			if c14Specials[i].Host != "" && c14Specials[i].Label != "module-imports" {
+				withHost = append(withHost, &c14Specials[i])
+			}
+		}
+		sp := withHost[rapid.IntRange(0, len(withHost)-1).Draw(rt, "hostScenarioSpecial")]
+		ch := &c14Change{Label: "special:" + sp.Label, Text: sp.Text, Special: sp}
+		for k := 0; k < 4; k++ {
+			ch.Hosts = append(ch.Hosts, c14Plant(rt, sp.Host, sp, fmt.Sprintf("hostPlant%d", k)))
+			if sp.Host2 != "" {
+				ch.Hosts = append(ch.Hosts, c14Plant(rt, sp.Host2, sp, fmt.Sprintf("host2Plant%d", k)))
+			}
+		}
+		changes = []*c14Change{ch}
+	}
 	join := func(chs []*c14Change) string {
 		var b strings.Builder
 		for _, ch := range chs {
